@@ -135,7 +135,8 @@ def variants(params: List[Dict[str, Any]]) -> Iterator[Dict[str, Any]]:
         yield {'params': ps[:n_before_ko] + [{'name': 'ctx', 'kind': 'KO', 'ctx': True}] + ps[n_before_ko:], 'flavour': 'func', 'excluded': excluded, 'view_ctx': False}
         if ps and ps[0]['name'] == 'p0' and not excluded:
             # client parameters named like attributes of pydantic's BaseModel (the extractor builds a model with such fields)
-            for attr in ('json', 'copy', 'dict', 'schema', 'validate', 'fields', 'construct'):
+            # ... or like the conventional names of an instance / a class (a plain function is free to call a parameter `cls` or `self`)
+            for attr in ('json', 'copy', 'dict', 'schema', 'validate', 'fields', 'construct', 'cls', 'self', 'context'):
                 yield {'params': [{**ps[0], 'name': attr}] + ps[1:], 'flavour': 'func', 'excluded': excluded, 'view_ctx': False}
         if ps and ps[0]['name'] == 'p0':
             # a client parameter whose name is contained in the context parameter's name ('t' in 'ctx')
